@@ -224,14 +224,7 @@ HELPERS = [
                 'subdir_tasks.spawn(async move { let _permit = job_limit.acquire().await.unwrap();'
                 '(subdir_name.clone(), transport.list_dir(&subdir_name).await) }); }',
          modules=['spawn_subdir_listings']),
-    # pin only (no bounded harness): `subdirs()` is not extracted at all -- blockdir_list.rs ASSUMES that it returns the
-    # three-character sub-directories of d/.  A change of its text makes the caller `list_blocks` not posable.
-    dict(helper='subdirs_chain', unit='blockdir', prelude='blockdir_list.rs', file='src/blockdir.rs', scope=None,
-         fn='subdirs', degrade_fn='list_blocks', pin_only=True, mode='chain', prefix=r'\.list_dir\(""\)\s*\.await\?',
-         pinned='.into_iter().filter(|entry| entry.kind == Kind::Dir).map(|entry| entry.name).filter(|dirname| {'
-                ' let t = dirname.len() == SUBDIR_NAME_CHARS; if !t { warn!("Unexpected subdirectory in blockdir: {dirname:?}"); } t })'
-                '.collect()',
-         modules=[]),
+    # (`subdirs()` used to be pinned here: it is now extracted and proved in unit blockopen, LINK blockdir.subdirs)
 ]
 # Not covered, on purpose: stitch_types.rs `lifted_last_apath` has a VERIFIED body (closure with a written-out
 # contract), not an assumed one -- there is nothing to check.
